@@ -191,7 +191,21 @@ def apply_ops(rec, ops, soft=False):
     for i, op in enumerate(ops):
         kind, name = op[0], op[1]
         h = table.handler(name)
-        if kind == "set":
+        if kind == "set" and op[2] in ("any", "default"):
+            # documented aliases: 'default' = the first backend the host supports; 'any' = keep the loaded backend, else the default
+            first = next((x for x in h.backends if host_supports(name, x)), None)
+            if first is None:
+                continue
+            # (worker processes run many histories: without a 'set' in this history the loaded backend is whatever get_backend() reports)
+            target = (model.get(name) or h.get_backend()) if op[2] == "any" else first
+            st, r = call(h.set_backend, op[2])
+            if st == "err" or h.get_backend() != target:
+                rec.fail(f"C03/machine/set-{op[2]}/{name}", f"set_backend({op[2]!r}) does not select the documented backend", "machine", {"ops": ops[: i + 1]}, repr(r) if st == "err" else h.get_backend(), target, soft=soft)
+                return
+            model[name] = target
+            switched = True
+            last_set = name
+        elif kind == "set":
             b = op[2]
             sup = host_supports(name, b)
             st, r = call(h.set_backend, b)
@@ -265,7 +279,7 @@ def make_machine(rec):
 
         @rule(name=names, data=st.data())
         def set_backend(self, name, data):
-            b = data.draw(st.sampled_from(list(table.handler(name).backends)))
+            b = data.draw(st.sampled_from(list(table.handler(name).backends) + ["any", "default"]))
             if b == "builtin" and "bcrypt" in name and host_supports(name, "builtin") and data.draw(st.integers(0, 3)):
                 b = "bcrypt"  # the pure-python bcrypt is slow: select it rarely
             self._run(["set", name, b])
